@@ -170,6 +170,36 @@ ModulePathPairs: _TypeAlias = list[ModulePathPair]
 ChangesAndRemovals: _TypeAlias = tuple[ModulePathPairs, ModulePathPairs]
 
 
+def json_value_matches(value: object, expected: str) -> bool:
+    """Is a value decoded from JSON acceptable for a handler parameter annotated 'expected'?
+
+    Only the annotations used by the command handlers are understood; anything else is accepted.
+    """
+    if " | " in expected:
+        return any(json_value_matches(value, item) for item in expected.split(" | "))
+    if expected == "None":
+        return value is None
+    if expected == "bool":
+        return isinstance(value, bool)
+    if expected == "int":
+        return isinstance(value, int) and not isinstance(value, bool)
+    if expected == "str":
+        return isinstance(value, str)
+    if expected in ("Sequence[str]", "list[str]"):
+        return isinstance(value, list) and all(isinstance(item, str) for item in value)
+    return True
+
+
+def wrongly_typed_argument(method: Callable[..., object], data: dict[str, object]) -> str | None:
+    """Return the name of a request argument whose value does not fit the handler, if any."""
+    annotations = getattr(method, "__annotations__", {})
+    for name, value in data.items():
+        expected = annotations.get(name)
+        if isinstance(expected, str) and not json_value_matches(value, expected):
+            return name
+    return None
+
+
 class Server:
     # NOTE: the instance is constructed in the parent process but
     # serve() is called in the grandchild (by daemonize()).
@@ -306,6 +336,11 @@ class Server:
                 # A request with missing or unexpected arguments is the client's
                 # mistake, it must not crash the daemon.
                 return {"error": f"Invalid arguments for command '{command}': {err}"}
+            wrong = wrongly_typed_argument(method, data)
+            if wrong is not None:
+                # The values come from the client as well.
+                msg = f"Invalid arguments for command '{command}': bad type of '{wrong}'"
+                return {"error": msg}
             ret = method(self, **data)
             assert isinstance(ret, dict)
             return ret
